@@ -265,31 +265,38 @@ theorem withTx_result (S : Suite) (s : Sess) (now ssrc : Nat) (f : Ctx → Excep
 theorem withRx_result {α : Type} (S : Suite) (r : Sess) (now ssrc : Nat) (f : Ctx → Except Err α × Ctx)
     (hinv : TableInv S r.profile r.rxMk r.rxMs r.rx)
     (hk : srtpKeyLen ≤ r.rxMk.length) (hs : r.profile.saltLen ≤ r.rxMs.length)
-    (hroom : r.rx.length < maxRxContexts)
+    (hroom : (lookup r.rx ssrc).isSome = true ∨ r.rx.length < maxRxContexts)
     (hssrc : ∀ c, (f c).2.ssrc = c.ssrc) :
     ∃ cr, cr.KeyedBy S r.profile r.rxMk r.rxMs ∧ cr.ssrc = ssrc ∧ (cr.roc, cr.last) = rocOf r.rx ssrc ∧
       ∀ a, (f cr).1 = .ok a → (r.withRx S now ssrc f).1 = .ok a ∧
-        rocOf (r.withRx S now ssrc f).2.rx ssrc = ((f cr).2.roc, (f cr).2.last) := by
+        rocOf (r.withRx S now ssrc f).2.rx ssrc = ((f cr).2.roc, (f cr).2.last) ∧
+        (lookup (r.withRx S now ssrc f).2.rx ssrc).isSome = true := by
   cases hl : lookup r.rx ssrc with
   | some c =>
     refine ⟨c, hinv c (lookup_mem hl), lookup_ssrc hl, by simp [rocOf, hl], ?_⟩
     intro a ha
     rw [withRx_some_ok S r now ssrc f hl ha]
-    refine ⟨rfl, ?_⟩
     have h1 := lookup_replace_self (c' := ({ (f c).2 with lastUsed := now } : Ctx)) hl
       (by show (f c).2.ssrc = ssrc; rw [hssrc]; exact lookup_ssrc hl)
-    simp only [rocOf, lookup_evict_keep, h1]
+    refine ⟨rfl, ?_, ?_⟩
+    · simp only [rocOf, lookup_evict_keep, h1]
+    · simp only [lookup_evict_keep, h1, Option.isSome_some]
   | none =>
     obtain ⟨c, hn⟩ := Ctx.new_usable S ssrc r.profile r.rxMk r.rxMs now hk hs
     obtain ⟨h1, h2, h3, _, h5⟩ := Ctx.new_ok hn
     refine ⟨c, h5, h1, by simp [rocOf, hl, h2, h3], ?_⟩
     intro a ha
-    rw [withRx_none_ok S r now ssrc f hl (rxFull_of_lt hroom) hn ha]
-    refine ⟨rfl, ?_⟩
+    have hroom' : r.rx.length < maxRxContexts := by
+      rcases hroom with h | h
+      · rw [hl] at h; simp at h
+      · exact h
+    rw [withRx_none_ok S r now ssrc f hl (rxFull_of_lt hroom') hn ha]
     have hl' : lookup (evict r.rx ssrc now) ssrc = none := by rw [lookup_evict_keep]; exact hl
     have := lookup_append_new (c := ({ (f c).2 with lastUsed := now } : Ctx)) hl'
       (by show (f c).2.ssrc = ssrc; rw [hssrc]; exact h1)
-    simp only [rocOf, this]
+    refine ⟨rfl, ?_, ?_⟩
+    · simp only [rocOf, this]
+    · simp only [this, Option.isSome_some]
 
 end RtcModel.Srtp
 
